@@ -49,6 +49,8 @@ pub enum Kind {
 #[derive(Clone, Debug, PartialEq)]
 pub enum Op {
     NewRing(u32),
+    /// through `IoUring::builder()`: mode 0 plain, 1 setup_sqpoll, 2 setup_iopoll
+    NewRingB(u32, u8),
     Push { ring: u32, ud: u64, kind: Kind, flags: u8 },
     Submit { ring: u32, mode: u8, want: u32 }, // mode 0 submit, 1 submit_and_wait, 2 submit_with_args(bad timespec)
     CqNew(u32),
@@ -78,6 +80,7 @@ impl Op {
     fn text(&self) -> String {
         match self {
             Op::NewRing(n) => format!("ctl newring {n}"),
+            Op::NewRingB(n, m) => format!("ctl newringb {n} {}", ["plain", "sqpoll", "iopoll"][(*m as usize).min(2)]),
             Op::Push { ring, ud, kind, flags } => {
                 let l = if *flags != 0 { format!(" fl={flags}") } else { String::new() };
                 match kind {
@@ -118,6 +121,14 @@ impl Op {
         let n = |i: usize| -> Option<u64> { t.get(i)?.parse().ok() };
         Some(match name {
             "newring" => Op::NewRing(n(2)? as u32),
+            "newringb" => Op::NewRingB(
+                n(2)? as u32,
+                match t.get(3)?.as_str() {
+                    "sqpoll" => 1,
+                    "iopoll" => 2,
+                    _ => 0,
+                },
+            ),
             "push" => {
                 let ud = n(2)?;
                 let flags: u8 = t.last().and_then(|s| s.strip_prefix("fl=")).and_then(|v| v.parse().ok()).unwrap_or(0);
@@ -416,17 +427,30 @@ impl World {
     fn exec(&mut self, op: &Op) -> (Vec<String>, String) {
         let mut ora = vec![];
         let obs = match op {
-            Op::NewRing(entries) => {
-                let entries = *entries;
-                self.entered(|w| match IoUring::new(entries) {
-                    Err(_) => "invalid".to_string(),
-                    Ok(ring) => {
-                        let fd = ring.as_raw_fd();
-                        let afd = AsyncFd::new(FdOnly(fd)).ok();
-                        let id = w.next_ring.get();
-                        w.next_ring.set(id + 1);
-                        w.rings.insert(id, RingH { ring: Some(ring), cq: None, afd, fd, woken: Rc::new(Cell::new(0)) });
-                        format!("ring {id}")
+            Op::NewRing(_) | Op::NewRingB(_, _) => {
+                let (entries, mode) = match op {
+                    Op::NewRing(e) => (*e, 255u8),
+                    Op::NewRingB(e, m) => (*e, *m),
+                    _ => unreachable!(),
+                };
+                self.entered(|w| {
+                    let made = match mode {
+                        255 => IoUring::new(entries),
+                        0 => IoUring::builder().build(entries),
+                        1 => IoUring::builder().setup_sqpoll(10).build(entries),
+                        _ => IoUring::builder().setup_iopoll().build(entries),
+                    };
+                    match made {
+                        Err(_) => "invalid".to_string(),
+                        Ok(ring) => {
+                            let fd = ring.as_raw_fd();
+                            let (sqe, cqe) = (ring.params().sq_entries(), ring.params().cq_entries());
+                            let afd = AsyncFd::new(FdOnly(fd)).ok();
+                            let id = w.next_ring.get();
+                            w.next_ring.set(id + 1);
+                            w.rings.insert(id, RingH { ring: Some(ring), cq: None, afd, fd, woken: Rc::new(Cell::new(0)) });
+                            format!("ring {id} sq={sqe} cq={cqe}")
+                        }
                     }
                 })
             }
@@ -1210,9 +1234,20 @@ fn gen_history(rng: &mut Rng, p: &GenParams) -> (Cfg, Vec<Op>) {
                     *l = false;
                 }
             } else {
-                ops.push(Op::NewRing(*rng.pick(&depths)));
-                ring_live.push(true);
-                ops.push(Op::CqNew(ring_live.len() as u32 - 1));
+                match rng.below(6) {
+                    0 => ops.push(Op::NewRing(0)),                       // rejected: no ring, no id
+                    1 => ops.push(Op::NewRingB(*rng.pick(&depths), 1)),  // rejected
+                    2 => ops.push(Op::NewRingB(*rng.pick(&depths), 2)),  // rejected
+                    k => {
+                        if k == 3 {
+                            ops.push(Op::NewRingB(*rng.pick(&[1u32, 5, 6, 7, 9]), 0));
+                        } else {
+                            ops.push(Op::NewRing(*rng.pick(&depths)));
+                        }
+                        ring_live.push(true);
+                        ops.push(Op::CqNew(ring_live.len() as u32 - 1));
+                    }
+                }
             }
         } else if !crashed || rng.chance(1, 3) {
             crashed = true;
@@ -1446,6 +1481,22 @@ fn await_loops(rng: &mut Rng, out: &mut Vec<Case>, n: usize) {
         cfg.cache = false;
         let mut ops = vec![Op::NewRing(4), Op::CqNew(0)];
         let mut ud = 1u64;
+        if rng.chance(1, 6) {
+            // the ring goes away under a parked waiter: it must come back with an error, not hang
+            if rng.chance(1, 2) {
+                ops.push(Op::Push { ring: 0, ud: 1, kind: Kind::Fsync { fd: 0 }, flags: 0 });
+                ops.push(Op::Submit { ring: 0, mode: 0, want: 0 });
+            }
+            ops.push(Op::Await(0));
+            ops.push(Op::Awaited(0));
+            ops.push(Op::DropRing(0));
+            for _ in 0..3 {
+                ops.push(Op::Awaited(0));
+            }
+            closing(&mut ops, 1);
+            out.push(Case { family: "awaitloop", mode: "sim", cfg, ops });
+            continue;
+        }
         for _round in 0..rng.range(1, 3) {
             let await_first = rng.chance(1, 2);
             if await_first {
@@ -1614,7 +1665,7 @@ pub fn main(args: &Args, out: &mut dyn Write) {
                     }
                     "panic" => format!("obs:panic-{}", toks.get(2).unwrap_or(&"")),
                     "err" => format!("obs:err-{}", toks.get(2).unwrap_or(&"")),
-                    "io" | "final" | "ring" | "submitted" | "synced" => format!("obs:{}", toks[1]),
+                    "io" | "final" | "ring" | "submitted" | "synced" | "sq" => format!("obs:{}", toks[1]),
                     other => format!("obs:{other}"),
                 };
                 *hist.entry(key).or_default() += 1;
